@@ -16,7 +16,8 @@ DECIDED = ["R01a log-before-write (DOM, cut on the Ok edge of the log insert)",
            "R01d WAL record intent: truncate records carry the pre-operation length, data records are non-empty",
            "R01e log cleared only by flush/apply_wal; flush only when the nesting counter reaches zero",
            "R01f recovery runs on open and on drop; torn WAL tail is truncated",
-           "R01g every success path from Storage::transaction() reaches commit"]
+           "R01g every success path from Storage::transaction() reaches commit",
+           "R01d (cont.) a write that extends the file logs the pre-operation length"]
 UNDECIDED = ["byte-exact restoration for arbitrary operation sequences (arithmetic of positions and lengths)",
              "OS behaviour between write and durability (the code deliberately does not fsync)"]
 
